@@ -500,7 +500,9 @@ MANIFEST = dict(
          "every allocator choice: two live non-aggregate types with the same description are the same object "
          "(C27_canonical); a construction returns an object with exactly the requested description — the live one "
          "if any, else a new one (C27_new_returns: no false sharing through stale keys or reused addresses); live "
-         "cache entries match their keys; a type rebuilt after a free is a new, again unique, object. Tied to the "
+         "cache entries match their keys; a type rebuilt after a free is a new, again unique, object. The model is the backend's one global cache; "
+         "that the front ends (several FFI objects, type strings, out-of-line modules, model.global_cache) "
+         "preserve canonicity is decided by the ffi-level correspondence only. Tied to the "
          "code by raw-backend histories compared with the model and by FFI-level partition checks.",
     note="Trusted: Coq kernel; hand model C27/Model.v (differential tie on the raw level); CPython weakref/refcount "
          "semantics as stated; the harness's structural description of ctypes. Theorems closed under the global "
